@@ -64,7 +64,7 @@ def gen_doc(rng):
     head = []
     decl = 0
     layout = rng.choice(["none", "none", "title", "charset", "pragma", "two", "after-long-title", "after-long-comment", "mixed", "uppercase", "in-body-only",
-                         "pragma-after-long-title", "pragma-after-long-comment", "pragma-lower-after-long-title"])
+                         "pragma-after-long-title", "pragma-after-long-comment", "pragma-lower-after-long-title", "both-pragma-first", "both-charset-first"])
     old = rng.choice(["utf-8", "koi8-r", "iso-8859-1", "shift_jis", "windows-1251", "bogus", "utf-16", ""])
     if layout in ("title", "mixed", "two"):
         head.append("<title>%s</title>" % esc(txt()))
@@ -87,6 +87,13 @@ def gen_doc(rng):
         decl += 1
     if layout in ("pragma", "two", "mixed"):
         head.append("<meta http-equiv=\"Content-Type\" content=\"text/html; charset=%s\">" % old)
+        decl += 1
+    if layout == "both-pragma-first":
+        # one meta carrying both forms: the charset attribute is the one that counts, whatever the attribute order
+        head.append("<meta http-equiv=\"Content-Type\" content=\"text/html; charset=%s\" charset=\"%s\">" % (old, old))
+        decl += 1
+    if layout == "both-charset-first":
+        head.append("<meta charset=\"%s\" content=\"text/html; charset=%s\" http-equiv=\"Content-Type\">" % (old, old))
         decl += 1
     if layout == "uppercase":
         head.append("<META CHARSET=\"%s\" NAME=x>" % old.upper())
